@@ -42,6 +42,15 @@ def den(t):
             return ("alt", den(t[2][0]), den(t[2][1]))
         if op == "add_transition":
             return ("class", S.vstr(t[2][2]))
+    if t[0] == "adt" and str(t[1]).endswith("nfa::Nfa"):
+        # take-over by struct update: `Nfa { states, start_state, end_state, ..nfa }` with the three taken from one child
+        got = {}
+        for v in t[3]:
+            if v[0] == "field" and v[2] in ("states", "start_state", "end_state"):
+                got[v[2]] = v[1]
+        if set(got) == {"states", "start_state", "end_state"} and len(set(got.values())) == 1:
+            return den(list(got.values())[0])
+        return ("?", S.vstr(t)[:80])
     if t[0] == "upd":
         # take-over: all of start_state, end_state, states copied from one child
         src = set()
@@ -359,7 +368,25 @@ def analyze(ctx, want):
 
     # ---- Alternation / Concat
     for v, op in (("Alternation", "alt"), ("Concat", "cat")):
-        ps = by_var.get(v, [])
+        ps = list(by_var.get(v, []))
+        if v == "Alternation":
+            # "the first alternative seeds the NFA, the others are alternated" may be decided by a flag that is carried from one
+            # iteration to the next (`if mem::take(&mut is_first)`) instead of the element's index: then the first iteration
+            # only shows the seeding.  Such paths are followed over the back edge once, into the second iteration.
+            extra = []
+            for p in ps:
+                if p.end[0] != "cut" or len(p.end) < 3:
+                    continue
+                if any(c[0] == "binop" and c[1] == "Eq" and ("int", 0) in (c[2], c[3]) and "item@" in S.vstr(c) for c, o in p.conds):
+                    continue
+                q0 = S.Path()
+                q0.locals, q0.heap, q0.assume, q0.conds, q0.events = dict(p.locals), dict(p.heap), dict(p.assume), list(p.conds), list(p.events)
+                try:
+                    conts = ex.run(p.end[2], q0)
+                except Exception:
+                    conts = []
+                extra.extend(q for q in conts if q.end and q.end[0] in ("cut", "return") and len(q.calls(r"Nfa::try_from_ast$")) >= 2)
+            ps.extend(extra[:200])
         item = None
         seen = set()
         for p in ps:
